@@ -155,6 +155,8 @@ focus(struct initparser *p)
 		p->sub->u.idx = 0;
 		if (p->sub->type->incomplete)
 			p->sub->type->size = t->size;
+		else if (p->sub->type->size == 0)
+			error(&tok.loc, "too many initializers for type");
 		off = 0;
 		break;
 	case TYPESTRUCT:
@@ -222,6 +224,8 @@ parseinit(struct scope *s, struct type *t)
 	p.last = &p.init;
 	if (t->incomplete && t->kind != TYPEARRAY)
 		error(&tok.loc, "initializer specified for incomplete type");
+	if (t->kind == TYPEFUNC)
+		error(&tok.loc, "initializer specified for function type");
 	if (t->kind == TYPEARRAY && t->base->size == 0)
 		error(&tok.loc, "initializer specified for variable length array type");
 	for (;;) {
